@@ -192,6 +192,14 @@ def replay(report, path, kind, shape, rng, from_file=False):
                 elif form == 1:
                     h.update({k: v})
                     twin.update({k: v})
+                elif form == 2:
+                    # the n-gram entry points through the handle (they have their own kernels)
+                    n = 1 + (i % 2)
+                    h.add_ngram(k, n)
+                    twin.add_ngram(k, n)
+                elif form == 3 and i % 2 == 1:
+                    h.update_ngram([k, k + b"z"], 2)
+                    twin.update_ngram([k, k + b"z"], 2)
                 else:
                     h.add(k, v)
                     twin.add(k, v)
